@@ -136,8 +136,12 @@ def gen_infinite(seed, idx):
         # (no jitter here: with answers still in flight a unicast Offer overtaken by the multicast StopOffer is a
         # reordering, which the infinite-TTL clause excludes - nothing would ever repair the stale offer)
         net["jitter"] = 0.0
-        pre = pair.execute({"engine": "pair", "seed": seed, "cfg": cfg, "ops": [], "until": 3.0})
         n = r.choice("BBA")
+        if n == "A":
+            # ... and the same reordering happens without jitter when the flushed unicast Offer and the multicast
+            # StopOffer arrive in one instant and the two sockets are read in the other order (seed 506, plan 6117)
+            cfg["sock_flip"] = 0
+        pre = pair.execute({"engine": "pair", "seed": seed, "cfg": cfg, "ops": [], "until": 3.0})
         arr = sorted({e[2] for e in pre.log if e[4] == "rx" and e[3].startswith(n) and e[5][1][0] != pair.ADDR[n][0]})
         if arr:
             tt = arr[0] if r.random() < 0.6 else r.choice(arr[:4])
